@@ -118,20 +118,22 @@ extern "C" void h_submatrix_insert_delete(void)
     unsigned gi = nondet_uint(), gj = nondet_uint(); __CPROVER_assume(gi < NN && gj < MM - 1);
     OBL("C24.col_del.post.shape", MM == 1 ? (A.row_ == 0 && A.col_ == 0) : (A.row_ == NN && A.col_ == MM - 1 && A.m_.n == NN * (MM - 1)));
     if (MM > 1) OBL("C24.col_del.post.remaining_columns_in_order", FVAL(A.m_.d[gi * (MM - 1) + gj]) == a[gi * MM + (gj < k ? gj : gj + 1)]);
-  } else if (which == 3) {            /* insert one row at pos */
-    DenseMatrix B; fmat b; any_matrix(B, b, 1, MM);
-    unsigned pos = nondet_uint(); __CPROVER_assume(pos <= NN); __CPROVER_assume((NN + 1) * MM <= CAP);
+  } else if (which == 3) {            /* insert a block of 1 or 2 rows at pos */
+    unsigned br = nondet_uint(); __CPROVER_assume(br >= 1 && br <= 2 && (NN + br) * MM <= CAP);
+    DenseMatrix B; fmat b; any_matrix(B, b, br, MM);
+    unsigned pos = nondet_uint(); __CPROVER_assume(pos <= NN);
     A.row_insert(B, pos);
-    unsigned gi = nondet_uint(), gj = nondet_uint(); __CPROVER_assume(gi < NN + 1 && gj < MM);
-    OBL("C24.row_insert.post.shape", A.row_ == NN + 1 && A.col_ == MM);
-    OBL("C24.row_insert.post.entries", FVAL(A.m_.d[gi * MM + gj]) == (gi == pos ? b[gj] : a[(gi < pos ? gi : gi - 1) * MM + gj]));
-  } else {                            /* insert one column at pos */
-    DenseMatrix B; fmat b; any_matrix(B, b, NN, 1);
-    unsigned pos = nondet_uint(); __CPROVER_assume(pos <= MM); __CPROVER_assume(NN * (MM + 1) <= CAP);
+    unsigned gi = nondet_uint(), gj = nondet_uint(); __CPROVER_assume(gi < NN + br && gj < MM);
+    OBL("C24.row_insert.post.shape", A.row_ == NN + br && A.col_ == MM);
+    OBL("C24.row_insert.post.entries", A.m_.d[gi * MM + gj].nn && FVAL(A.m_.d[gi * MM + gj]) == ((gi >= pos && gi < pos + br) ? b[(gi - pos) * MM + gj] : a[(gi < pos ? gi : gi - br) * MM + gj]));
+  } else {                            /* insert a block of 1 or 2 columns at pos */
+    unsigned bc = nondet_uint(); __CPROVER_assume(bc >= 1 && bc <= 2 && NN * (MM + bc) <= CAP);
+    DenseMatrix B; fmat b; any_matrix(B, b, NN, bc);
+    unsigned pos = nondet_uint(); __CPROVER_assume(pos <= MM);
     A.col_insert(B, pos);
-    unsigned gi = nondet_uint(), gj = nondet_uint(); __CPROVER_assume(gi < NN && gj < MM + 1);
-    OBL("C24.col_insert.post.shape", A.row_ == NN && A.col_ == MM + 1);
-    OBL("C24.col_insert.post.entries", FVAL(A.m_.d[gi * (MM + 1) + gj]) == (gj == pos ? b[gi] : a[gi * MM + (gj < pos ? gj : gj - 1)]));
+    unsigned gi = nondet_uint(), gj = nondet_uint(); __CPROVER_assume(gi < NN && gj < MM + bc);
+    OBL("C24.col_insert.post.shape", A.row_ == NN && A.col_ == MM + bc);
+    OBL("C24.col_insert.post.entries", A.m_.d[gi * (MM + bc) + gj].nn && FVAL(A.m_.d[gi * (MM + bc) + gj]) == ((gj >= pos && gj < pos + bc) ? b[gi * bc + (gj - pos)] : a[gi * MM + (gj < pos ? gj : gj - bc)]));
   }
   REACHABLE("h_submatrix_insert_delete");
 }
